@@ -126,7 +126,7 @@ def run(chk, facts_dir, tier):
         else:
             chk.fail("R2.5", WS + "validate_event_versions", "pending-lookup-predicate", "the search of un-synced entries uses %s instead of a single stream-id equality: a stream written under "
                      "another partition key (or otherwise filtered out) is invisible until the next sync, so the partition-key and version checks are skipped for it" % [(e[0], e[1]) for e in eqs], cb, aggs[0][1]["line"])
-    chk.floor("R2.5", n_pl, 4)
+    chk.floor("R2.5", n_pl, 2)
     # the partition key mismatch is an error in all four arms
     mism = [s for i, j, s in vb.assigns() if s["rv"]["k"] == "agg" and s["rv"]["ak"].endswith("EventValidationError::PartitionKeyMismatch")]
     if len(mism) >= 4:
